@@ -239,6 +239,59 @@ def one_guard(ctx, rng, ninputs):
     judge(ctx, sess, kernel, r.proc, variant, meta, ninputs)
 
 
+def gen_dense_pair(rng):
+    """callee with *dense* tensor formals of fixed extents (rank 1-2) and a root whose block is a
+    hand-instantiated copy of its body on buffers of the same rank whose extents equal the formal's
+    (instance) or exceed them in one dimension (the block works on a corner: not an instance, the
+    callee would address the buffer with its own row pitch)"""
+    rank = rng.choice([1, 2, 2])
+    R, C = rng.choice([2, 3, 4]), rng.choice([3, 4])
+    grow = rng.choice([None, None, "last", "first"]) if rank == 2 else rng.choice([None, "last"])
+    R2 = R + (rng.choice([1, 2]) if grow == "first" else 0)
+    C2 = C + (rng.choice([1, 4]) if grow == "last" else 0)
+    two = rng.random() < 0.5  # second dense operand
+    rhs_k = rng.choice(["1.0", "x", "x2"]) if two else rng.choice(["1.0", "1.0", "x"])
+    op = rng.choice(["=", "+="])
+    if rank == 2:
+        fs = f"x: f32[{R}, {C}]" + (f", y: f32[{R}, {C}]" if two else "")
+        rs = f"a: f32[{R2}, {C2}]" + (f", b: f32[{R}, {C}]" if two else "")
+        def body(x, y):
+            r = {"1.0": "1.0", "x": f"{x}[i, j] * 2.0", "x2": f"{y}[i, j]"}[rhs_k]
+            return f"    for i in seq(0, {R}):\n        for j in seq(0, {C}):\n            {x}[i, j] {op} {r}\n"
+    else:
+        fs = f"x: f32[{C}]" + (f", y: f32[{C}]" if two else "")
+        rs = f"a: f32[{C2}]" + (f", b: f32[{C}]" if two else "")
+        def body(x, y):
+            r = {"1.0": "1.0", "x": f"{x}[j] * 2.0", "x2": f"{y}[j]"}[rhs_k]
+            return f"    for j in seq(0, {C}):\n        {x}[j] {op} {r}\n"
+    text = HEADER + f"@proc\ndef f({fs}):\n{body('x', 'y')}\n\n@proc\ndef root({rs}, m: size):\n{body('a', 'b')}"
+    return text, {"family": "dense", "rank": rank, "grow": grow, "near_miss": grow is not None}
+
+
+def one_dense(ctx, rng, ninputs):
+    text, meta = gen_dense_pair(rng)
+    try:
+        mod = load_program(text, ctx.scratch)
+    except CaseTimeout:
+        raise
+    except Exception:
+        ctx.stat("programs.rejected")
+        return
+    ctx.stat("programs.accepted")
+    sess = Session(mod, "root", text)
+    kernel = sess.cur
+    nb = len(kernel._loopir_proc.body)
+    st = {"op": "replace", "args": [{"k": "block", "path": [], "attr": "body", "lo": 0, "hi": nb}, {"k": "proc", "name": "f"}, {"k": "lit", "v": True}], "kw": {}}
+    r = apply_step(sess, st)
+    variant = "dense-miss" if meta.get("near_miss") else "dense-same"
+    ctx.stat("replace.attempted." + variant)
+    if r.status != "accepted":
+        ctx.stat("replace.rejected." + variant)
+        return
+    ctx.stat("replace.accepted." + variant)
+    judge(ctx, sess, kernel, r.proc, variant, meta, ninputs)
+
+
 def find_call(ir):
     for p, s in irutil.all_stmts(ir):
         if isinstance(s, LoopIR.Call):
@@ -376,7 +429,10 @@ def shard(ctx):
         ctx.rng = rng
         signal.setitimer(signal.ITIMER_REAL, 40)
         try:
-            if rng.random() < 0.35:
+            roll = rng.random()
+            if roll < 0.15:
+                one_dense(ctx, rng, ctx.params["ninputs"])
+            elif roll < 0.45:
                 one_guard(ctx, rng, ctx.params["ninputs"])
             else:
                 one(ctx, rng, ctx.params["ninputs"])
